@@ -135,6 +135,7 @@ const (
 	spareBase  = 400
 	// multiBase+j is a two-of-two multi-signature account: its address is that of the multi-key made
 	// of the keys multiMember+2j and multiMember+2j+1, and its transactions carry both signatures
+	freshBase   = 1200 // keys that hold nothing at genesis (reward delegators without an account)
 	multiBase   = 700
 	multiMember = 7000
 	nMulti      = 2
